@@ -232,10 +232,23 @@ def rule_wrapper(ctx, repo):
         pre.append(s)
     pre += tail[:idx]
     np_ = 0
+    from ..rules import canon_guard as _cg3
+    raw_fi = repo.get_function('bitcoin.core.script.RawSignatureHash')
+    raw_err = set()
+    for g_ in raw_fi.node.body:
+        if isinstance(g_, ast.If) and g_.body and isinstance(g_.body[-1], ast.Return) and isinstance(g_.body[-1].value, ast.Tuple) and len(g_.body[-1].value.elts) == 2 \
+                and norm(g_.body[-1].value.elts[1]) != 'None':
+            raw_err.add(_cg3(g_.test, repo, raw_fi.module))
     for s in pre:
         if isinstance(s, ast.Expr) and isinstance(s.value, ast.Constant):
             continue
         if isinstance(s, ast.Assert):
+            continue
+        if isinstance(s, ast.If) and not s.orelse and len(s.body) == 1 and isinstance(s.body[0], ast.Raise) and isinstance(s.body[0].exc, ast.Call) \
+                and norm(s.body[0].exc.func) == 'ValueError' and fi.params[:4] == raw_fi.params[:4] and _cg3(s.test, repo, fi.module) in raw_err:
+            # the wrapper repeats a test the raw form makes (and reports as an error value): ValueError either way
+            np_ += 1
+            r.ok('prefix:%s' % norm(s.test)[:40], common.site_of(fi, s), 'repeats an error condition of the raw form, raising ValueError')
             continue
         for x in ast.walk(s):
             if isinstance(x, ast.Subscript) and not isinstance(x.slice, ast.Slice) and any(isinstance(y, ast.Name) and y.id == fi.params[2] for y in ast.walk(x.slice)):
@@ -246,7 +259,7 @@ def rule_wrapper(ctx, repo):
             elif isinstance(x, ast.Call) and not isinstance(s, ast.Assert):
                 np_ += 1
                 r.undecided('prefix:%s' % norm(x)[:40], common.site_of(fi, x), 'SignatureHash calls `%s` on the way to the raw form; what it can raise is not decided' % norm(x)[:80])
-    if np_ == 0:
+    if not any(i_.key.startswith('prefix') and i_.status != 'HOLDS' for i_ in r.instances):
         r.ok('prefix', fi.site, 'nothing that can raise is evaluated before the raw form is called (%d statements)' % len(pre))
     # nothing else may reject in the legacy branch (the digest is defined for every subscript that parses)
     n = 0
